@@ -6,6 +6,10 @@
         t2d_zx/zy/xy_plane_wave                            the three 2D operators are exact on plane waves travelling in their plane
         op3_exact_on_plane_wave, sweep_uses_op3, sweep_op3_plane_wave
                                                            the 3D operator is exact on every plane wave s (a z + b x + c y)
+        op3 / op3_raw                                      op3 is the operator of the code, i.e. the formula op3_raw followed by the
+                                                           causality guard `if t3d < tnve: t3d = Big`
+        op3_guard_passes_plane_wave                        the guard never fires on a plane wave with non-negative direction cosines
+        op3_guard_noop_cubic                               the guard is a no-op on cubic cells (ta + tb + tc = 3 tnve)
      B. t_ana_scale_slowness/_length, t_anad_scale_slowness/_length
      C. t_ana_swap_zx/_zy/_xy                              invariance under the transposition of any two axes
 
@@ -173,11 +177,17 @@ Definition op3_t3 tv te tn tev ten tnv tnve dzxi dzyi dxyi : R :=
   let ta := op3_a tv te tn tev ten tnv tnve in let tb := op3_b tv te tn tev ten tnv tnve in
   let tc := op3_c tv te tn tev ten tnv tnve in
   dzxi * ((ta - tb) * (ta - tb)) + dzyi * ((tb - tc) * (tb - tc)) + dxyi * ((ta - tc) * (ta - tc)).
-Definition op3 tv te tn tev ten tnv tnve vref dz2i dx2i dy2i dzxi dzyi dxyi dsum : R :=
+(* the unguarded formula  (t1 + sqrt (t2 - t3)) / dsum *)
+Definition op3_raw tv te tn tev ten tnv tnve vref dz2i dx2i dy2i dzxi dzyi dxyi dsum : R :=
   let ta := op3_a tv te tn tev ten tnv tnve in let tb := op3_b tv te tn tev ten tnv tnve in
   let tc := op3_c tv te tn tev ten tnv tnve in
   ((tb * dz2i + ta * dx2i + tc * dy2i)
    + sqrt (op3_t2 vref dsum - op3_t3 tv te tn tev ten tnv tnve dzxi dzyi dxyi)) / dsum.
+(* the operator of the code: the causality guard  `if t3d < tnve: t3d = Big`  rejects a candidate that is earlier than
+   the time at the diagonally opposite corner of the cell *)
+Definition op3 tv te tn tev ten tnv tnve vref dz2i dx2i dy2i dzxi dzyi dxyi dsum : R :=
+  let t := op3_raw tv te tn tev ten tnv tnve vref dz2i dx2i dy2i dzxi dzyi dxyi dsum in
+  if Rltb t tnve then Big else t.
 
 Definition sweep_t2d tt slow dz dx dy dz2i dx2i dy2i i j k sgnvz sgnvx sgnvy sgntz sgntx sgnty nz nx ny : R :=
   let tv := nb_v tt i j k sgntz in let te := nb_e tt i j k sgntx in let tn := nb_n tt i j k sgnty in
@@ -302,11 +312,11 @@ Lemma op3_admissible_plane_wave :
 Proof. pose proof op3_radicand_plane_wave as E.
   pose proof (Rle_0_sqr (3 * s * (a / dz + b / dx + c / dy))) as P. unfold Rsqr in P. lra. Qed.
 
-Theorem op3_exact_on_plane_wave :
-  op3 tv te tn tev ten tnv T0 s dz2i dx2i dy2i (dz2i * dx2i) (dz2i * dy2i) (dx2i * dy2i) (dz2i + dx2i + dy2i)
+Lemma op3_raw_exact_on_plane_wave :
+  op3_raw tv te tn tev ten tnv T0 s dz2i dx2i dy2i (dz2i * dx2i) (dz2i * dy2i) (dx2i * dy2i) (dz2i + dx2i + dy2i)
   = T0 + s * (a * dz + b * dx + c * dy).
 Proof.
-  unfold op3. cbv zeta. rewrite op3_radicand_plane_wave, sqrt_square.
+  unfold op3_raw. cbv zeta. rewrite op3_radicand_plane_wave, sqrt_square.
   - unfold op3_a, op3_b, op3_c, tv, te, tn, tev, ten, tnv, dz2i, dx2i, dy2i. field.
     split; [lra|]. split; [lra|]. split; [lra|].
     assert (0 < (dx * dx + dz * dz) * (dy * dy)) by (apply Rmult_lt_0_compat; nra).
@@ -316,7 +326,57 @@ Proof.
     assert (0 <= c / dy) by (apply Rmult_le_pos; [lra | left; apply Rinv_0_lt_compat; lra]).
     apply Rmult_le_pos; [lra | lra].
 Qed.
+
+(* the causality guard never fires on such a plane wave: the exact time at the node is not earlier than the time T0 at
+   the diagonally opposite corner *)
+Lemma op3_guard_passes_plane_wave :
+  T0 <= op3_raw tv te tn tev ten tnv T0 s dz2i dx2i dy2i (dz2i * dx2i) (dz2i * dy2i) (dx2i * dy2i) (dz2i + dx2i + dy2i).
+Proof.
+  rewrite op3_raw_exact_on_plane_wave.
+  assert (0 <= a * dz) by (apply Rmult_le_pos; lra). assert (0 <= b * dx) by (apply Rmult_le_pos; lra).
+  assert (0 <= c * dy) by (apply Rmult_le_pos; lra).
+  assert (0 <= s * (a * dz + b * dx + c * dy)) by (apply Rmult_le_pos; lra). lra.
+Qed.
+
+Theorem op3_exact_on_plane_wave :
+  op3 tv te tn tev ten tnv T0 s dz2i dx2i dy2i (dz2i * dx2i) (dz2i * dy2i) (dx2i * dy2i) (dz2i + dx2i + dy2i)
+  = T0 + s * (a * dz + b * dx + c * dy).
+Proof.
+  unfold op3. cbv zeta. rewrite (proj2 (Rltb_false _ _) op3_guard_passes_plane_wave).
+  apply op3_raw_exact_on_plane_wave.
+Qed.
 End PlaneWave3.
+
+(* the guard is a no-op on cubic cells: with equal spacings ta + tb + tc = 3 tnve, so the unguarded candidate is
+   tnve + sqrt (t2 - t3) / dsum >= tnve (dzxi, dzyi, dxyi, vref and the seven neighbour values are arbitrary) *)
+Theorem op3_guard_noop_cubic tv te tn tev ten tnv tnve vref d dzxi dzyi dxyi :
+  0 < d ->
+  op3_a tv te tn tev ten tnv tnve + op3_b tv te tn tev ten tnv tnve + op3_c tv te tn tev ten tnv tnve = 3 * tnve /\
+  op3_raw tv te tn tev ten tnv tnve vref d d d dzxi dzyi dxyi (d + d + d)
+  = tnve + sqrt (op3_t2 vref (d + d + d) - op3_t3 tv te tn tev ten tnv tnve dzxi dzyi dxyi) / (d + d + d) /\
+  tnve <= op3_raw tv te tn tev ten tnv tnve vref d d d dzxi dzyi dxyi (d + d + d) /\
+  op3 tv te tn tev ten tnv tnve vref d d d dzxi dzyi dxyi (d + d + d)
+  = op3_raw tv te tn tev ten tnv tnve vref d d d dzxi dzyi dxyi (d + d + d).
+Proof.
+  intros Hd.
+  assert (Esum : op3_a tv te tn tev ten tnv tnve + op3_b tv te tn tev ten tnv tnve + op3_c tv te tn tev ten tnv tnve
+                 = 3 * tnve) by (unfold op3_a, op3_b, op3_c; field).
+  assert (Eraw : op3_raw tv te tn tev ten tnv tnve vref d d d dzxi dzyi dxyi (d + d + d)
+                 = tnve + sqrt (op3_t2 vref (d + d + d) - op3_t3 tv te tn tev ten tnv tnve dzxi dzyi dxyi) / (d + d + d)).
+  { unfold op3_raw. cbv zeta.
+    set (r := sqrt _).
+    replace (op3_b tv te tn tev ten tnv tnve * d + op3_a tv te tn tev ten tnv tnve * d + op3_c tv te tn tev ten tnv tnve * d)
+      with (3 * tnve * d) by (rewrite <- Esum; ring).
+    field. lra. }
+  assert (Hge : tnve <= op3_raw tv te tn tev ten tnv tnve vref d d d dzxi dzyi dxyi (d + d + d)).
+  { rewrite Eraw.
+    pose proof (sqrt_pos (op3_t2 vref (d + d + d) - op3_t3 tv te tn tev ten tnv tnve dzxi dzyi dxyi)) as P.
+    assert (0 <= sqrt (op3_t2 vref (d + d + d) - op3_t3 tv te tn tev ten tnv tnve dzxi dzyi dxyi) / (d + d + d))
+      by (apply Rmult_le_pos; [exact P | left; apply Rinv_0_lt_compat; lra]).
+    lra. }
+  repeat split; try assumption.
+  unfold op3. cbv zeta. rewrite (proj2 (Rltb_false _ _) Hge). reflexivity.
+Qed.
 
 (* tie: when the 1D/2D candidates exceed the three face neighbours and t2 >= t3, sweep uses the 3D operator *)
 Theorem sweep_uses_op3 tt ttsgn slow dz dx dy dz2i dx2i dy2i dzxi dzyi dxyi dsum
@@ -443,5 +503,6 @@ Print Assumptions t2d_zx_plane_wave.
 Print Assumptions t2d_zy_plane_wave.
 Print Assumptions t2d_xy_plane_wave.
 Print Assumptions op3_exact_on_plane_wave.
+Print Assumptions op3_guard_noop_cubic.
 Print Assumptions sweep_uses_op3.
 Print Assumptions sweep_op3_plane_wave.
